@@ -5,9 +5,17 @@ import os, pty, sys, termios, gc
 class Stream:
     """buffered=False: write() delivers at once (an interrupted write delivers half of its data);
     buffered=True: write() only stores, flush() delivers (an interrupted flush delivers half of what was stored)"""
-    def __init__(self, fd, fail_at=None, exc=KeyboardInterrupt, buffered=False):
+    def __init__(self, fd, fail_at=None, exc=KeyboardInterrupt, buffered=False, cut="half"):
         self.fd, self.fail_at, self.exc, self.ops, self.data, self.log = fd, fail_at, exc, 0, [], []
-        self.buffered, self.pending = buffered, ""
+        self.buffered, self.pending, self.cut = buffered, "", cut
+    def _prefix(self, data):
+        """what an interrupted write delivered: half of the data, or (cut="in-command") everything up to a point inside the first
+        string command (APC / OSC) the data holds"""
+        if self.cut == "in-command":
+            starts = [i for i in (data.find("\x1b_"), data.find("\x1b]")) if i >= 0]
+            if starts:
+                return data[: min(starts) + 8]
+        return data[: len(data) // 2]
     def _op(self, data=None):
         self.ops += 1
         self.log.append(data)
@@ -20,13 +28,13 @@ class Stream:
             else:
                 out, self.pending = self.pending, ""
                 if fail:
-                    self.data.append(out[: len(out) // 2])
+                    self.data.append(self._prefix(out))
                     raise self.exc()
                 self.data.append(out)
             return
         if fail:
             if data:
-                self.data.append(data[: len(data) // 2])     # an interrupted write delivered a prefix
+                self.data.append(self._prefix(data))     # an interrupted write delivered a prefix
             raise self.exc()
         if data is not None:
             self.data.append(data)
@@ -111,6 +119,39 @@ def draw_faults(m, meta):
                 if problems:
                     out.append({"frames": frames, "stream": "buffered until flush()" if buffered else "unbuffered", "KeyboardInterrupt_at_stream_op": k,
                                 "operation": "flush()" if st.log[k - 1] is None else "write(%r)" % st.log[k - 1][:20], "problems": problems})
+        # undisturbed draws from every kind of terminal mode the caller may have set (echo off, raw, VMIN/VTIME values): byte for byte
+        # the same attributes afterwards
+        from term_image.padding import ExactPadding as _EP
+        base_attr = termios.tcgetattr(slave)
+        try:
+            for canon in (True, False):
+                for echo_on in (True, False):
+                    for vmin, vtime in ((1, 0), (0, 5)):
+                        attr = [x if not isinstance(x, list) else list(x) for x in base_attr]
+                        attr[3] = (attr[3] | termios.ICANON) if canon else (attr[3] & ~termios.ICANON)
+                        attr[3] = (attr[3] | termios.ECHO) if echo_on else (attr[3] & ~termios.ECHO)
+                        if not canon:
+                            attr[6][termios.VMIN], attr[6][termios.VTIME] = vmin, vtime
+                        termios.tcsetattr(slave, termios.TCSANOW, attr)
+                        before = termios.tcgetattr(slave)
+                        for frames in (1, 3):
+                            for echo_input in (False, True):
+                                r, R = _renderable(frames)
+                                st = Stream(slave)
+                                old = sys.stdout
+                                sys.stdout = st
+                                try:
+                                    r.draw(loops=1, padding=_EP(), check_size=False, echo_input=echo_input)
+                                finally:
+                                    sys.stdout = old
+                                after = termios.tcgetattr(slave)
+                                if after != before:
+                                    out.append({"frames": frames, "mode on entry (ICANON, ECHO, VMIN, VTIME)": (canon, echo_on, vmin, vtime), "echo_input": echo_input,
+                                                "problems": ["terminal attributes differ after an undisturbed draw()"],
+                                                "ECHO afterwards": bool(after[3] & termios.ECHO)})
+                                    termios.tcsetattr(slave, termios.TCSANOW, before)
+        finally:
+            termios.tcsetattr(slave, termios.TCSANOW, base_attr)
         # Ctrl-C surfacing from the tcsetattr call that switches echo off: before it took effect, or just after
         import term_image.renderable._renderable as RR2
         real_set = termios.tcsetattr
@@ -240,14 +281,14 @@ def old_draw_faults(m, meta):
             import re as _re
             if cleanup_from >= 2 and st0.log[cleanup_from - 1] == "" and _re.fullmatch(r"\x1b\[\d+B", st0.log[cleanup_from - 2] or ""):
                 cleanup_from -= 2
-            for exc in (KeyboardInterrupt, Boom):
+            for exc, cut in ((KeyboardInterrupt, "half"), (Boom, "half"), (KeyboardInterrupt, "in-command"), (Boom, "in-command")):
                 for k in range(1, cleanup_from + 1):
                     image = cls(_gif(frames))
                     image.set_size(height=2)
                     if frames > 1:
                         image.seek(1)
                     size0, seek0 = image.size, image.tell()
-                    st = Stream(0, fail_at=k, exc=exc)
+                    st = Stream(0, fail_at=k, exc=exc, cut=cut)
                     old = sys.stdout
                     sys.stdout = st
                     raised = None
